@@ -42,11 +42,11 @@ SPEC = dict(
                  "reached the queue under test",
                  "aios without a callback complete synchronously (nni_task_dispatch executes inline), so nni_aio_busy() right after an "
                  "nni_msgq call tells whether it blocked"],
-    quick=dict(runs=[R("c18_queue", "asan", 8, 4000, "lmq", 600),
-                     R("c18_queue", "asan", 8, 4000, "msgq", 600),
-                     R("c18_queue", "asan", 8, 150, "api", 900),
-                     R("c18_ids", "asan", 8, 3000, "map", 600),
-                     R("c18_ids", "asan", 4, 120, "storm", 900)],
+    quick=dict(runs=[R("c18_queue", "asan", 8, 20000, "lmq", 600),
+                     R("c18_queue", "asan", 8, 20000, "msgq", 600),
+                     R("c18_queue", "asan", 8, 500, "api", 900),
+                     R("c18_ids", "asan", 8, 8000, "map", 600),
+                     R("c18_ids", "asan", 4, 300, "storm", 900)],
                floor={"cases": 400000, "lmq_cases": 250000, "msgq_cases": 250000, "lossy_resizes": 200000,
                       "msgq_blocked_puts": 20000, "msgq_handoffs": 50000,
                       "api_resize_cases": 4000, "api_capacity_points": 80, "api_refills": 1000,
